@@ -123,8 +123,10 @@ def gen_program(rng, edge=False):
         drawn = rng.sample(cands, min(len(cands), rng.randint(1, 3)))
         factors.insert(rng.randint(0, len(factors)), {"k": "hier", "mean": mean, "sigma": sigma, "drawn": drawn})
     prog = {"priors": priors, "factors": factors, "ipf": rng.random() < 0.6}
-    if rng.random() < 0.2:
+    if rng.random() < 0.35:
         prog["n_ctor"] = rng.randint(0, len(factors))  # the remaining factors are attached with .add()
+        # ... after the partly built model was already used (graph / approximation asked for)
+        prog["touch"] = rng.choice([None, "graph", "approx", "info"])
     return prog
 
 
@@ -186,6 +188,17 @@ def build(prog):
     n_ctor = prog.get("n_ctor", len(top))
     B.fg = g.FactorGraphModel(*top[:n_ctor], include_prior_factors=prog["ipf"])
     for t in top[n_ctor:]:
+        touch = prog.get("touch")
+        try:
+            # the start-of-fit state is a function of the factors the model has now, not of when they were added
+            if touch == "graph":
+                B.fg.graph
+            elif touch == "approx":
+                B.fg.mean_field_approximation()
+            elif touch == "info":
+                B.fg.graph.info
+        except Exception:  # noqa: an empty / partial graph may refuse; irrelevant for what follows
+            pass
         B.fg.add(t)
     B.places = places_of(prog)
     B.n_model = len(B.places)
